@@ -92,11 +92,11 @@ def build_runner(c, root, race=False):
     return out, ""
 
 
-def execute(c, binary, root, name="trace", deadline="5s", timeout=1800, env=None):
+def execute(c, binary, root, name="trace", deadline="5s", timeout=1800, env=None, extra=()):
     trace = os.path.join(root, name + ".ndjson")
     prog = os.path.join(root, name + ".progress")
     r = subprocess.run([binary, "-progs", os.path.join(root, "programs.json"), "-scen", os.path.join(root, "scen.ndjson"),
-                        "-out", trace, "-progress", prog, "-deadline", deadline],
+                        "-out", trace, "-progress", prog, "-deadline", deadline] + list(extra),
                        cwd=root, env=env or GOENV, capture_output=True, text=True, timeout=timeout)
     last = None
     if os.path.exists(prog):
@@ -156,6 +156,12 @@ def pipeline(c, nflow, npar, nscen, seed_off=0, par_exec=0, race=False, progs=No
     trace, r, last = execute(c, binary, root, env=env)
     text = r.stdout + r.stderr
     if race:
+        # once more without the event log and without any counter shared with the runner: the log's mutex and
+        # the runner's polling would order the caller's accesses before the workers' and hide races between the
+        # directive's own goroutines (e.g. the deferred TaskSkipped sweep against a task still running)
+        _, rb, _ = execute(c, binary, root, name="bare", env=env, extra=["-bare"])
+        text += rb.stdout + rb.stderr
+        c.cov["evaluations"] += len(jobs)
         for rep in text.split("WARNING: DATA RACE")[1:]:
             rep = rep.split("==================")[0]
             if "go.uber.org/cff" in rep or "vgen/" in rep:
@@ -176,8 +182,9 @@ def pipeline(c, nflow, npar, nscen, seed_off=0, par_exec=0, race=False, progs=No
     if len(c.cov["samples"]) < 3:
         p = next(iter(byname.values()))
         c.cov["samples"].append(dict(program={k: v for k, v in p.items() if k != "style"}, scenario=jobs[0]["sc"]))
-    if model_traces and mode == "base":
-        # the same executions against the transcription of the templates itself
+    if model_traces:
+        # the same executions against the transcription of the templates itself (whatever the generation mode:
+        # source-map and modifier code must behave like the base templates, C20)
         for module, d, lim in (("FlowTrace", "flow", model_traces), ("ParallelTrace", "parallel", model_traces // 3)):
             acc, rej = validate_model_trace(c, trace, "t%d" % seed_off, module, d, lim)
             c.cov["model_traces_accepted"] = c.cov.get("model_traces_accepted", 0) + acc
